@@ -13,9 +13,9 @@ import os
 import vf
 
 
-def cfgtext(grid, budget, walks, maxev, inv, view=True, maxreplay=3):
-    return ("INIT Init\nNEXT Next\n%sCONSTANTS\n  Grid = \"%s\"\n  FaultBudget = %d\n  OrphanGuard = TRUE\n  Walks = %d\n  MaxEvents = %d\n  MaxReplay = %d\nINVARIANTS %s\n"
-            % ("VIEW View\n" if view else "", grid, budget, walks, maxev, maxreplay, inv))
+def cfgtext(grid, budget, walks, maxev, inv, view=True, maxreplay=3, loseat=0):
+    return ("INIT Init\nNEXT Next\n%sCONSTANTS\n  Grid = \"%s\"\n  FaultBudget = %d\n  OrphanGuard = TRUE\n  Walks = %d\n  MaxEvents = %d\n  MaxReplay = %d\n  LoseAt = %d\nINVARIANTS %s\n"
+            % ("VIEW View\n" if view else "", grid, budget, walks, maxev, maxreplay, loseat, inv))
 
 
 def run(ctx):
@@ -61,6 +61,29 @@ def run(ctx):
                 if budget == 0:
                     jobs.append({"mode": "tcp", "p": pp, "acts": []})
                     nscen += 1
+    # (c) directed schedules: a fault-free exchange of every scenario in which the server's buffers time out once after
+    #     1 / 2 delivered responses (a GET continuation then executes the application again: new representation)
+    ndir = 0
+    for loseat in (1, 2):
+        p = os.path.join(cdir, "MC_Blockwise_dir_%d.cfg" % loseat)
+        with open(p, "w") as f:
+            f.write(cfgtext("quick" if not thorough else "thorough", 1, 400 if thorough else 130, 90, "Emit", view=False, maxreplay=12, loseat=loseat))
+        g = vf.run_tlc(ctx, "bw", "MC_Blockwise", os.path.basename(p), files=[p], workers=1, seed=ctx.seed, timeout=3000, cont=False)
+        vf.tlc_must_finish(g, "MC_Blockwise directed")
+        seen = set()
+        for line in g.out.splitlines():
+            if line.startswith('<<"HIST", '):
+                raw = json.loads(line[len('<<"HIST", '):-2])
+                if raw in seen:
+                    continue
+                seen.add(raw)
+                h = json.loads(raw)
+                if not any(a["a"] == "lose" for a in h["acts"]):
+                    continue
+                pp = {"l": h["p"]["L"], "l2": h["p"]["L2"], "cs": h["p"]["CS"], "ss": h["p"]["SS"], "cmms": h["p"]["CMMS"], "smms": h["p"]["SMMS"]}
+                jobs.append({"mode": "layer", "p": pp, "acts": h["acts"]})
+                ndir += 1
+    ctx.cov["directed_timeout_schedules"] = ndir
     if not jobs:
         raise vf.Machinery("no schedules generated")
     jpath = os.path.join(ctx.work, "jobs.ndjson")
